@@ -99,6 +99,19 @@ def run_property(prop, tier, seed):
             if fn.startswith(prop + '_'):
                 os.remove(os.path.join(rd, fn))
     unit_names = list(spec.get('verus', []))
+    # properties this one presupposes (transitively): their Verus units and witness families are part of this check as well -- a clause
+    # or a concrete input of a presupposed property that fails is a failure of what this property's statement rests on
+    closure = []
+    todo = list(spec.get('depends_on', []))
+    while todo:
+        q = todo.pop(0)
+        if q == prop or q in closure or q not in props.PROPS:
+            continue
+        closure.append(q)
+        todo += list(props.PROPS[q].get('depends_on', []))
+    if not spec.get('only_untagged', False):
+        for q in closure:
+            unit_names += [u for u in props.PROPS[q].get('verus', []) if u not in unit_names]
     if tier == 'thorough':
         unit_names += [u for u in spec.get('verus_thorough', []) if u not in unit_names]
     undecided = []
@@ -135,7 +148,7 @@ def run_property(prop, tier, seed):
 
     whole_units = set(spec.get('whole_units', []))     # units whose every clause counts for this property, whatever its tags
 
-    depends_on = set(spec.get('depends_on', []))        # properties whose clauses this property's statement presupposes
+    depends_on = set(closure)        # properties whose clauses this property's statement presupposes (transitively)
 
     def _counts(f):
         if f.unit in whole_units:
@@ -151,12 +164,18 @@ def run_property(prop, tier, seed):
 
     # native witnesses (binding + boundary families); decide nothing universal, but a failing one is a real failing input
     witnesses = []
-    wfn = spec.get('witnesses')
-    if wfn:
+    wfns = []
+    for q in [prop] + closure:
+        wf_q = props.PROPS[q].get('witnesses')
+        key = props.PROPS[q].get('witness_key', q)       # families shared by several properties are run once
+        if wf_q and key not in [k for k, _ in wfns]:
+            wfns.append((key, wf_q))
+    for _key, wfn in wfns:
         try:
-            witnesses = wfn(tier, seed)
+            witnesses += wfn(tier, seed)
         except replay.ReplayBuildError as e:
             undecided.append('replay tool does not build against the current tree: %s' % str(e)[-600:])
+            break
         except Exception as e:
             undecided.append('witness run failed: %r\n%s' % (e, traceback.format_exc()[-800:]))
     bad_w = [w for w in witnesses if not w.ok]
@@ -197,9 +216,10 @@ def run_property(prop, tier, seed):
     known = core.load_known()
     reported, kf_lines = [], []
     for f in failures:
-        kf = next((k for k in known if _known_matches(k, prop, f)), None)
+        kf = next((k for k in known if _known_matches(k, prop, f) or any(_known_matches(k, q, f) for q in closure)), None)
         if kf and _witness_still_fails(kf):
-            kf_lines.append('KNOWN-FINDING: property=%s %s [%s]' % (prop, kf.get('what', ''), f.oid))
+            via = '' if kf.get('property') == prop else '(finding on %s, which %s presupposes) ' % (kf.get('property'), prop)
+            kf_lines.append('KNOWN-FINDING: property=%s %s%s [%s]' % (prop, via, kf.get('what', ''), f.oid))
         else:
             reported.append(f)
 
